@@ -10,9 +10,9 @@
  F (flatness)    'flat' from the real predicate on 4 points means both inner control points are closer
     than the flatness to the chord: C09-L1 with n = 4, re-run here.
  T (termination) (i) the second differences of each half produced by the real beziersplitatt are
-    D1/4 and (D1+D2)/8 resp. (D1+D2)/8 and D2/4 (linear identities); (ii) the real predicate answers
-    'flat' whenever all components of D1, D2 are below flat/2.  Hence the depth is bounded by
-    log4(max|D| / (flat/2)) + 1 (paper composition)."""
+    D1/4 and (D1+D2)/8 resp. (D1+D2)/8 and D2/4 (linear identities, solver-checked); (ii) the predicate
+    answers 'flat' whenever all components of D1, D2 are below flat/2 (paper argument: z3 left it
+    'unknown').  Hence the depth is bounded by log4(max|D| / (flat/2)) + 1 (paper composition)."""
 import random
 from fractions import Fraction
 
@@ -54,12 +54,13 @@ class Check(CheckBase):
     pid = "C10"
     title = "Bezier subdivision"
     bounds = {"quick": {"S": "node lists of 1..3 nodes, all control points unbounded symbolic reals, at most K = 4 'not flat' answers in total",
-                        "F": "4 symbolic points + symbolic flatness > 0", "T": "lemma (i) only (lemma (ii) is discharged in the thorough tier: its non-linear queries take minutes)"},
+                        "F": "4 symbolic points + symbolic flatness > 0", "T": "lemma (i)"},
               "thorough": {"S": "1..3 nodes, K = 7", "F": "as quick", "T": "as quick"}}
     outside = ["binary64 rounding (exact-real model)", "non-finite inputs, flat <= 0", "more than 3 nodes (pieces are processed independently: paper argument)",
-               "the composition of the termination lemmas into a depth bound (paper argument)"]
+               "termination lemma (ii) - all components of D1, D2 below flat/2 imply 'flat' - and the composition into the depth bound log4(max|D|/(flat/2))+1: "
+               "paper argument (z3 answered 'unknown' on (ii) within 100 s)"]
     stubs = ["S: points_in_tolerance -> nondeterministic stub limited to K 'not flat' answers"]
-    lemmas = ["T(i) second differences of the halves: (D1/4, (D1+D2)/8) and ((D1+D2)/8, D2/4)", "T(ii) all components of D1, D2 below flat/2 => predicate True",
+    lemmas = ["T(i) second differences of the halves: (D1/4, (D1+D2)/8) and ((D1+D2)/8, D2/4)",
               "F = C09-L1 at n = 4"]
 
     def functions_encoded(self):
@@ -72,8 +73,9 @@ class Check(CheckBase):
         cs = [{"label": "S/nodes%d/K%d" % (m, K), "kind": "S", "m": m, "K": K, "split_depth": 5 if K > 4 else None} for m in (1, 2, 3)]
         cs.append({"label": "F/n4", "kind": "F", "n": 4, "split_depth": 4})
         cs.append({"label": "T/i", "kind": "Ti"})
-        if tier == "thorough":
-            cs.append({"label": "T/ii", "kind": "Tii", "split_depth": 3})
+        # T(ii) is not part of either tier: z3 (nlsat) returned 'unknown' after 100 s on the direct formulation and needed
+        # 15-40 s per path-feasibility query on the executed one; it stays a paper argument (run it with --only T/ii
+        # after adding the case by hand if you want to retry).
         return cs
 
     def config(self, tier, case):
@@ -82,7 +84,7 @@ class Check(CheckBase):
         return engine.Config(logic="QF_LRA", max_decisions=400)
 
     def expected_reach(self, tier):
-        return ["S:no-split", "S:split", "F:True", "F:False", "T:i"] + (["T:ii"] if tier == "thorough" else [])
+        return ["S:no-split", "S:split", "F:True", "F:False", "T:i"]
 
     def harness(self, run, case):
         kind = case["kind"]
